@@ -1,7 +1,7 @@
 (* C05 — the model interface mirrors the callable's signature.  Statements only; proofs in theories/Interface.v
    over gen/GenInterface.v (the always-keep decision translated from the current source). *)
 From Coq Require Import ZArith String List Bool.
-From J2O Require Import PyLib Onnx Interface IoNames IoAlias.
+From J2O Require Import PyLib Onnx Interface IoNames IoAlias IoResolve.
 From J2OGen Require Import GenInterface.
 Import ListNotations.
 
@@ -125,3 +125,35 @@ Theorem C05_alias_names_fresh : forall outs bases taken existing next os al,
   (forall n, In n (map (fun e => snd (fst e)) al) -> ~ In n existing).
 Proof. exact alias_loop_names_fresh. Qed.
 Print Assumptions C05_alias_names_fresh.
+
+(* ---- which graph inputs the user's input_names are applied to (user_interface._resolve_positional_inputs; model
+   theories/IoResolve.v [resolve]) *)
+
+(* exactly one value per positional argument *)
+Theorem C05_resolve_one_per_argument : forall ins n l, resolve ins n = Some l -> List.length l = n.
+Proof. exact resolve_length. Qed.
+Print Assumptions C05_resolve_one_per_argument.
+
+(* when the positional names in_0 .. in_(n-1) are all present among the graph inputs -- in ANY order, with keyword-parameter
+   inputs in between -- the k-th name goes to the input carrying index k *)
+Theorem C05_resolve_by_index : forall ins n l,
+  (forall k, k < n -> exists v, first_with k ins = Some v) ->
+  resolve ins n = Some l ->
+  forall k, k < n -> exists v, nth_error l k = Some v /\ In (v, Some k) ins.
+Proof. exact resolve_by_index. Qed.
+Print Assumptions C05_resolve_by_index.
+
+(* ... and distinct arguments get distinct values (so two user names never meet on one value) *)
+Theorem C05_resolve_distinct : forall ins n l,
+  NoDup (map fst ins) ->
+  (forall k, k < n -> exists v, first_with k ins = Some v) ->
+  resolve ins n = Some l -> NoDup l.
+Proof. exact resolve_by_index_NoDup. Qed.
+Print Assumptions C05_resolve_distinct.
+
+(* otherwise: the first n graph inputs, and a loud failure when there are fewer *)
+Theorem C05_resolve_fallback : forall ins n,
+  0 < n -> collect ins (seq 0 n) = None ->
+  resolve ins n = if Nat.leb n (List.length ins) then Some (map fst (firstn n ins)) else None.
+Proof. exact resolve_fallback. Qed.
+Print Assumptions C05_resolve_fallback.
